@@ -222,9 +222,28 @@ func c15Run(c *ev.Ctx) {
 	for step := 0; step < nops; step++ {
 		w := []int{8, 2, 2, 2, 1}
 		if len(live) == 0 {
-			w = []int{1, 0, 0, 0, 0}
+			// an empty heap (emptied or never filled) is also written out and loaded
+			w = []int{3, 0, 0, 0, 1}
 		}
-		switch r.Weighted(w) {
+		kindOp := r.Weighted(w)
+		if len(live) > 0 && len(live) <= 8 && fh.RootIndirectBlock == nil && r.Chance(1, 12) {
+			// drain: delete everything, so that the next save is that of an emptied heap
+			for len(order) > 0 {
+				k := order[len(order)-1]
+				o := live[k]
+				hist = append(hist, c15Op{Op: "delete", ID: fmt.Sprintf("%x", o.id)})
+				if err := fh.DeleteObject(o.id); err != nil {
+					fail("delete-refused:"+region(o.off+o.len)+rl(), err.Error())
+					return
+				}
+				delete(live, k)
+				order = order[:len(order)-1]
+				liveBytes -= o.len
+			}
+			c.Count("heaps_drained", 1)
+			kindOp = 4
+		}
+		switch kindOp {
 		case 0: // insert
 			n := nextSize()
 			if n == 0 {
